@@ -216,3 +216,32 @@ def pol_linearity(S):
     fy = mc.raw_fields(S, theory, rhos, phis, kz, S.pi / 2)
     S.observe('fab', fab)
     S.claim_eq('linear', fab, np.cos(alpha) * fx + np.sin(alpha) * fy)
+
+
+@obligation('C06.superposition.mielens_shared_theory', functions=['holopy.scattering.theory.mielens.MieLens.raw_fields',
+                                                                  'holopy.scattering.theory.mielens.MieLens._create_calculator'],
+            stubs=['MieLensCalculator (class) := recorder with uninterpreted fields E(k rho, phi, kz, m, x)'],
+            angle_mode='atoms', timeout_s=120, nvalid=2,
+            bounds='one MieLens object evaluating two spheres at the same depth with the same index and different '
+                   '(symbolic) radii, then the first again: each member field equals the field computed by a fresh '
+                   'theory object (what the sum over the members of a collection is made of)')
+def mielens_shared_theory(S):
+    mc.setup(S)
+    log = []
+    mc.install_stub_calculator_class(S, log)
+    k, nmed, kz = 12.0, 1.33, 60.0
+    r1, r2 = S.real('r1', lo=0.1, hi=2), S.real('r2', lo=0.1, hi=2)
+    S.assume(r1 != r2)
+    rho, phi = S.real('rho', lo=0, hi=20), S.angle('phi', 0, 2)
+    S.observe('r1', r1)
+
+    def field(theory, r):
+        pos = mc.positions(S, [rho], [phi], kz)
+        return theory.raw_fields(pos, Sphere(n=1.59, r=r, center=(0, 0, 5.0)), k, nmed, mc.pol_vector(S, 0))
+    shared = MieLens(lens_angle=0.9)
+    f1 = field(shared, r1)
+    f2 = field(shared, r2)
+    f1_again = field(shared, r1)
+    S.claim_eq('second_member', f2, field(MieLens(lens_angle=0.9), r2))
+    S.claim_eq('first_member', f1, field(MieLens(lens_angle=0.9), r1))
+    S.claim_eq('first_member_again', f1_again, f1)
